@@ -279,3 +279,45 @@ Theorem C17_fp12_frobenius : forall x : T12,
   canon12 (I12frobenius3 x) = S12frob 3 x /\ canon12 (I12frobenius6 x) = S12frob 6 x.
 Proof. exact fp12_frobenius_ok. Qed.
 Print Assumptions C17_fp12_frobenius.
+
+(* ---- wave 5: scalar arithmetic mod N, key-extraction scalar, H1/H2, fp2 division *)
+(* sm9_z256_modn_mul (Barrett with the stored constant, one conditional subtraction) on reduced operands *)
+Theorem C17_modn_mul : forall a b : Z, 0 <= a < Nord -> 0 <= b < Nord -> modn_mul a b = (a * b) mod Nord.
+Proof. exact modn_mul_ok. Qed.
+Print Assumptions C17_modn_mul.
+
+Theorem C17_modn_pow : forall a e : Z, 0 <= a < Nord -> 0 < e -> modn_pow a e = (a ^ e) mod Nord.
+Proof. exact modn_pow_ok. Qed.
+Print Assumptions C17_modn_pow.
+
+(* sm9_z256_modn_inv = a^(N-2) inverts when N is prime (premise) *)
+Theorem C17_modn_inv_partial : forall a : Z, Znumtheory.prime Nord -> 0 < a < Nord ->
+  0 <= modn_inv a < Nord /\ (a * modn_inv a) mod Nord = 1.
+Proof. exact modn_inv_ok. Qed.
+Print Assumptions C17_modn_inv_partial.
+
+(* the scalar computed by sm9_*_master_key_extract_key: error exactly when H1 + k = 0 mod N, otherwise the
+   t2 = k * t1inv with (H1 + k) * t1inv = 1 mod N that C17_verify_sign_partial etc. take as premise *)
+Theorem C17_extract_t2_partial : forall h1 k : Z, Znumtheory.prime Nord -> 0 <= h1 < Nord -> 0 <= k < Nord ->
+  match extract_t2 h1 k with
+  | None => (h1 + k) mod Nord = 0
+  | Some t2 => 0 <= t2 < Nord /\ (t2 * (h1 + k)) mod Nord = k mod Nord /\
+               exists t1inv, ((h1 + k) * t1inv) mod Nord = 1 mod Nord /\ t2 = (k * t1inv) mod Nord
+  end.
+Proof. exact extract_t2_ok. Qed.
+Print Assumptions C17_extract_t2_partial.
+
+(* H1 (sm9_z256_hash1) and H2 (inside sm9_do_sign / sm9_do_verify) equal the standard's maps into [1, N-1] *)
+Theorem C17_hash1 : forall (id : list N) (hid : N),
+  sm9_hash1_impl id hid = sm9_hash1_spec id hid /\ 1 <= sm9_hash1_impl id hid <= Nord - 1.
+Proof. exact sm9_hash1_ok. Qed.
+Print Assumptions C17_hash1.
+Theorem C17_hash2 : forall m w : list N,
+  sm9_hash2_impl m w = sm9_hash2_spec m w /\ 1 <= sm9_hash2_impl m w <= Nord - 1.
+Proof. exact sm9_hash2_ok. Qed.
+Print Assumptions C17_hash2.
+
+Theorem C17_fp2_div_partial : Znumtheory.prime p -> forall a b : T2, norm2 b mod p <> 0 ->
+  canon2 (I2mul (I2div a b) b) = canon2 a.
+Proof. exact fp2_div_ok. Qed.
+Print Assumptions C17_fp2_div_partial.
